@@ -1,3 +1,4 @@
 pub mod rules;
 pub mod solver;
 pub mod tb;
+pub mod tb4;
